@@ -49,11 +49,19 @@ def set_compared_loop(s, ctx):
 
 
 def check(ctx):
+    sorted_locals = hash_order(ctx)
+    ambient(ctx)
+    sorted_lists(ctx, sorted_locals)
+    containers(ctx)
+    G.module_template(ctx, "C06.5")
+
+
+def hash_order(ctx, floors=True):
     P = ctx.P
     sites = k8.hash_sites(P, LIBS)
-    ctx.count("hash-container flow sites", len(sites), 13)
+    ctx.count("hash-container flow sites", len(sites), 13 if floors else None)
     iter_sites = [s for s in sites if s.kind in ("iter", "iter-arg")]
-    ctx.count("hash iteration sources", len(iter_sites), 13)
+    ctx.count("hash iteration sources", len(iter_sites), 13 if floors else None)
     sorted_locals = {}
     api_fns = {}
     for s in sites:
@@ -109,10 +117,7 @@ def check(ctx):
                         ctx.expect(not bad, "C06.1", key, site(n), "(d) consumer writes only into SettingsValidationError lists (compared as sets by the property)",
                                    "consumer of a hash-ordered iterator writes elsewhere: " + "; ".join(bad))
                     break
-    ambient(ctx)
-    sorted_lists(ctx, sorted_locals)
-    containers(ctx)
-    G.module_template(ctx, "C06.5")
+    return sorted_locals
 
 
 def returns_hash_iterator(s):
@@ -168,7 +173,7 @@ def disjoint_rename(s):
     return why
 
 
-def ambient(ctx):
+def ambient(ctx, floors=True):
     n_calls = 0
     hits = []
     GEN_ONLY = ("scale_typegen",)     # the property is about the generator; the example crates' seeded RNG is C12 / C14
@@ -193,7 +198,7 @@ def ambient(ctx):
                     for name in (call.get("callee", ""), call.get("inst", "")):
                         if any(name.startswith(a) for a in AMBIENT):
                             hits.append((p, name, call.get("sp")))
-    ctx.count("call sites scanned for ambient nondeterminism", n_calls, 1000)
+    ctx.count("call sites scanned for ambient nondeterminism", n_calls, 1000 if floors else None)
     if hits:
         for p, name, sp in sorted(set(hits)):
             ctx.bad("C06.2", "ambient/%s/%s" % (cshort(p), name), sp, "library code calls `%s`: ambient nondeterminism (environment, time, files, threads or unseeded randomness)" % name)
